@@ -394,20 +394,10 @@ impl Checkout {
         let end = self.inner.end;
         let data_before = self.available_data();
         if pos > 0 {
-            // SAFETY: src and dst point into the same checkout buffer
-            // (`self.inner.extra`); the slice indexing above bounds-checks
-            // both ranges (`pos..end` and `..length`) against the live
-            // buffer length. `ptr::copy` is overlap-safe.
-            unsafe {
-                let length = end - pos;
-                ptr::copy(
-                    self.inner.extra()[pos..end].as_ptr(),
-                    self.inner.extra_mut()[..length].as_mut_ptr(),
-                    length,
-                );
-                self.inner.position = 0;
-                self.inner.end = length;
-            }
+            let length = end - pos;
+            self.inner.extra_mut().copy_within(pos..end, 0);
+            self.inner.position = 0;
+            self.inner.end = length;
         }
         // Post-condition: shift relocates the readable window to the front but
         // never changes how many bytes are readable.
